@@ -65,7 +65,7 @@ func (e *Enc) encodeInstrs(fr *Frame, b *ssa.BasicBlock, st *State) {
 			y.T = in.Type()
 			// pointer conversions between distinct named struct types would change heap keys
 			if p1, ok := in.X.Type().Underlying().(*types.Pointer); ok {
-				if p2, ok := in.Type().Underlying().(*types.Pointer); ok && typeStr(p1.Elem()) != typeStr(p2.Elem()) {
+				if p2, ok := in.Type().Underlying().(*types.Pointer); ok && typeStr(p1.Elem()) != typeStr(p2.Elem()) && !sameBasicCell(p1.Elem(), p2.Elem()) {
 					e.unsupportedf("pointer conversion %s -> %s", typeStr(in.X.Type()), typeStr(in.Type()))
 				}
 			}
@@ -184,7 +184,7 @@ func (e *Enc) encAlloc(fr *Frame, st *State, in *ssa.Alloc) {
 			sort := "(Array Int (Array Int " + lf.Sort + "))"
 			h := e.heapGet(st, key, sort)
 			e.withRef(r, func() {
-				e.heapSet(st, key, sort, "(store "+h+" "+r+" ((as const (Array Int "+lf.Sort+")) "+e.zero(lf.Sort)+"))")
+				e.heapSet(st, key, sort, "(store "+h+" "+r+" "+e.zeroArray(lf.Sort)+")")
 			})
 		}
 		return
@@ -549,7 +549,7 @@ func (e *Enc) encIndexAddr(fr *Frame, st *State, in *ssa.IndexAddr) *Val {
 			break
 		}
 		e.safety(fr, st, "index", "(and (<= 0 "+idx+") (< "+idx+" "+x.L[2].T+"))", "slice index out of range", in.Pos())
-		return &Val{T: in.Type(), Loc: &Loc{Kind: 'S', Key: typeStr(xt.Elem()), Ref: x.L[0].T, Idx: addT(x.L[1].T, idx), T: xt.Elem()}}
+		return &Val{T: in.Type(), Loc: &Loc{Kind: 'S', Key: typeStr(xt.Elem()), Ref: x.L[0].T, Idx: e.elemIdx(x.L[1].T, idx), T: xt.Elem()}}
 	case *types.Pointer:
 		arr, ok := xt.Elem().Underlying().(*types.Array)
 		if !ok {
@@ -566,6 +566,11 @@ func (e *Enc) encIndexAddr(fr *Frame, st *State, in *ssa.IndexAddr) *Val {
 	}
 	e.unsupportedf("IndexAddr on %s in %s", typeStr(in.X.Type()), fr.fn)
 	return &Val{T: in.Type(), Loc: &Loc{Kind: 'P', Key: "?", Ref: e.fresh("unk", "Int"), T: in.Type().(*types.Pointer).Elem()}}
+}
+
+// elemIdx: the cell index off+i of element i of a slice with offset off.
+func (e *Enc) elemIdx(off, i string) string {
+	return addT(off, i)
 }
 
 func addT(a, b string) string {
@@ -833,7 +838,7 @@ func (e *Enc) encMakeSlice(fr *Frame, st *State, in *ssa.MakeSlice) *Val {
 		sort := "(Array Int (Array Int " + lf.Sort + "))"
 		h := e.heapGet(st, key, sort)
 		e.withRef(r, func() {
-			e.heapSet(st, key, sort, "(store "+h+" "+r+" ((as const (Array Int "+lf.Sort+")) "+e.zero(lf.Sort)+"))")
+			e.heapSet(st, key, sort, "(store "+h+" "+r+" "+e.zeroArray(lf.Sort)+")")
 		})
 	}
 	return &Val{T: in.Type(), L: []Sc{{r, "Int"}, {"0", "Int"}, {ln, "Int"}, {cp, "Int"}}}
@@ -963,6 +968,7 @@ func (e *Enc) encLookup(fr *Frame, st *State, in *ssa.Lookup) *Val {
 		h := e.heapGet(st, key, sort)
 		t := "(select (select " + h + " " + x.L[0].T + ") " + kt + ")"
 		e.typeAssume(st, lf, t)
+		e.entryRefFact(key, sort, lf, x.L[0].T, kt)
 		out.L = append(out.L, Sc{ite(present, t, e.zero(lf.Sort)), lf.Sort})
 	}
 	if in.CommaOk {
@@ -1078,6 +1084,7 @@ func (e *Enc) encNext(fr *Frame, st *State, in *ssa.Next) *Val {
 		h := e.heapGet(st, hk, hs)
 		t := "(select (select " + h + " " + m + ") " + k + ")"
 		e.typeAssume(st, lf, t)
+		e.entryRefFact(hk, hs, lf, m, k)
 		out.L = append(out.L, Sc{t, lf.Sort})
 	}
 	return out
@@ -1136,4 +1143,36 @@ func (e *Enc) encRunDefers(fr *Frame, st *State, in *ssa.RunDefers) {
 		m := e.mergeStates(fr.prefix+"defer", sts, conds)
 		*st = *m
 	}
+}
+
+// sameBasicCell: both types are (named) basic types with the same underlying basic type: their cells share one heap.
+func sameBasicCell(a, b types.Type) bool {
+	x, ok1 := a.Underlying().(*types.Basic)
+	y, ok2 := b.Underlying().(*types.Basic)
+	return ok1 && ok2 && x.Kind() == y.Kind()
+}
+
+// entryRefFact: a reference stored in a map of the ENTRY heap is a reference that existed at entry.
+func (e *Enc) entryRefFact(key, sort string, lf Leaf, m, k string) {
+	if lf.Sort != "Int" || !isRefLike(lf.T) {
+		return
+	}
+	a0 := e.declConst(sym(key+"@0"), sort)
+	e.assert("(=> (<= " + m + " alloc@0) (<= (select (select " + a0 + " " + m + ") " + k + ") alloc@0))")
+}
+
+// zeroArray: the all-zero backing array of element sort s. For uninterpreted sorts the zero element is a declared
+// constant, which is not a value, and cvc5 rejects it as the argument of a constant array; such an array is introduced
+// as a declared constant with an element-wise definition instead.
+func (e *Enc) zeroArray(s string) string {
+	z := e.zero(s)
+	if !strings.HasPrefix(z, "zero!") {
+		return "((as const (Array Int " + s + ")) " + z + ")"
+	}
+	n := sym("zeroarr!" + sortSym(s))
+	if _, ok := e.declared[n]; !ok {
+		e.declConst(n, "(Array Int "+s+")")
+		e.assert("(forall ((j Int)) (! (= (select " + n + " j) " + z + ") :pattern ((select " + n + " j))))")
+	}
+	return n
 }
